@@ -16,6 +16,7 @@ import (
 // answered by harness pb.DataManagerClient implementations from a table keyed
 // by the partition id in the request, with symbolic sizes.
 func VerifC17() {
+	verifrt.RaceDetect(verifrt.Bound("race", 0) == 1)
 	P := verifrt.IntIn("P", 1, verifrt.Bound("maxp", 3))
 	verifrt.Preemptions(verifrt.Bound("preempt", 0))
 	const local = uint64(1)
@@ -99,7 +100,7 @@ func VerifC17() {
 	asked := map[string]int{}
 	askedFailing := false
 	for _, c := range clients {
-		for _, call := range c.calls {
+		for _, call := range c.getCalls() {
 			asked[string(call.partitionId)]++
 			if failing[string(call.partitionId)] {
 				askedFailing = true
